@@ -215,6 +215,7 @@ class FaultMonitor(Monitor):
         self.calls = []  # (n, method, request, plan)
         self.applied = {}  # n -> response
         self.pkg_calls = Counter()  # customerRef -> attempts
+        self.order_calls = Counter()  # customerOrderRef -> placement instructions sent for it (whatever package carried them)
         self.answered = {}  # n -> True when flumine received a well-formed answer
         self.packages = []
         self.count0 = None
@@ -230,6 +231,9 @@ class FaultMonitor(Monitor):
         self.calls.append((n, method, request, plan))
         ref = request["params"].get("customerRef")
         self.pkg_calls[ref] += 1
+        if method == "placeOrders":
+            for ins in request["params"].get("instructions", []):
+                self.order_calls[ins.get("customerOrderRef")] += 1
         if plan.get("transport") or plan.get("reports") or plan.get("shuffle") or plan.get("omit"):
             self.res.nontrivial = True
         kind = "transport:%s" % plan["transport"] if plan.get("transport") else None
@@ -285,6 +289,9 @@ class FaultMonitor(Monitor):
                 self.violate(self.P, "C12.attempts", "more-calls-than-retry-budget", attempts=n, budget=budget)
             if n == budget:
                 self.res.probes["c12.retries_exhausted"] += 1
+        for ref, n in self.order_calls.items():
+            if n > budget:
+                self.violate(self.P, "C12.attempts", "one-order-sent-for-placement-more-often-than-the-retry-budget", attempts=n, budget=budget, order_ref=ref)
 
     def _cause(self, pkg):
         ref = pkg.id.hex
